@@ -28,6 +28,8 @@ type BlockNet struct {
 	onPut func(p int, c cid.Cid)
 	// failGet, when set, may return an error for a Get.
 	failGet func(p int, c cid.Cid) error
+	// NotFoundFast makes a Get of a block no peer holds fail at once instead of waiting.
+	NotFoundFast bool
 }
 
 func NewBlockNet(n int) *BlockNet {
@@ -74,6 +76,7 @@ func (b *BlockNet) Reset() {
 	b.gate = nil
 	b.onPut = nil
 	b.failGet = nil
+	b.NotFoundFast = false
 	b.bump()
 	b.mu.Unlock()
 }
@@ -130,6 +133,19 @@ func (b *BlockNet) get(ctx context.Context, p int, c cid.Cid) (ipld.Node, error)
 					b.mu.Unlock()
 					return n, nil
 				}
+			}
+		}
+		if b.NotFoundFast {
+			// nobody anywhere holds this block: fail like a lookup that found no provider
+			held := false
+			for q := range b.blocks {
+				if _, ok := b.blocks[q][c]; ok {
+					held = true
+				}
+			}
+			if !held {
+				b.mu.Unlock()
+				return nil, ipld.ErrNotFound{Cid: c}
 			}
 		}
 		ch := b.changed
